@@ -1,7 +1,9 @@
 (* Commit bookkeeping (C07): the theorems of Properties/C07.v.
    Model/Commit.v follows the code as repaired by c78a4f5 (arena: blocks whose commit was refused are not kept marked
-   committed) and 68720bb (segment: a huge segment whose memory the arena did not commit is committed as a whole);
-   `arena_try_alloc_at_old` and `os_alloc_commit_old` below are the pre-repair behaviours, shown unsound. *)
+   committed), 68720bb (segment: a huge segment whose memory the arena did not commit is committed as a whole) and the
+   repair of mi_segments_page_alloc (a fresh segment that the retry left without a page is freed again);
+   `arena_try_alloc_at_old` and `os_alloc_commit_old` below are the pre-repair behaviours, shown unsound, and
+   `segments_page_alloc_old` is the pre-repair mi_segments_page_alloc, shown to keep a segment without pages. *)
 From Coq Require Import NArith Lia Bool List.
 From MiV Require Import Gen.Consts Model.Commit Proofs.CommitBase Proofs.CommitInv Proofs.CommitStep.
 Import ListNotations.
@@ -331,7 +333,12 @@ Proof.
     destruct (seg_wf_in s HI snew Hq1) as [_ [_ [_ Hw]]]. cbn in Hw. destruct Hw as [_ [_ [_ Hu]]]. rewrite (Hu b0 ltac:(lia)) in Hf. discriminate. }
   destruct (pfa_granted c st1 snew INFO_SLICES n o2 HI1 Hg2 Hs1 eq_refl) as [s' [o' [Hstep Hg']]]; auto.
   { unfold snew, new_segment; cbn [sg_info]. lia. }
-  change (sg_base snew) with (block_slice (st_arena s) b0) in Hstep. rewrite Hstep. eauto.
+  change (sg_base snew) with (block_slice (st_arena s) b0) in Hstep.
+  destruct (pfa_inv _ _ _ _ _ _ _ _ _ _ _ HI1 Hstep) as [_ [_ Hl']].
+  rewrite Hstep. unfold free_if_unused. rewrite Hl'.
+  (* the page just handed out lies in the new segment: it is kept *)
+  assert (Eb : sg_base snew = block_slice (st_arena s) b0) by reflexivity. rewrite Eb.
+  cbn [seg_has_live existsb pg_seg]. rewrite N.eqb_refl. cbn [orb]. eauto.
 Qed.
 
 (* ---------------------------------------------------------------- concrete runs *)
@@ -408,15 +415,336 @@ Proof.
   - intros b0 n. apply recovers_arena_normal; assumption.
 Qed.
 
-(* Observation (reported to the coordinator, it concerns "gives back everything", C11): when the FIRST span commit in a
-   fresh segment is refused, mi_segments_page_find_and_allocate restores the span and the malloc fails, but the fresh
-   segment stays cached with no used page; mi_collect(true) does not visit it (it visits segments through the heap's
-   pages), so its arena block stays claimed until a later allocation uses and frees it.  The implementation does exactly
-   this (harness/f_commit.c: the model with this behaviour agrees with every dumped state). *)
-Example empty_segment_cached_after_refusal :
+(* ---------------------------------------------------------------- segments never stay owned without a page *)
+(* The repaired mi_segments_page_alloc frees the segment it obtained from mi_segment_reclaim_or_alloc when its retry
+   returned without a page in that segment.  Consequence, for every operation, oracle and choice argument (no
+   invariant is needed): a segment of the new state that has no live page was already a segment without a live page
+   before the operation; so when every segment has a live page this stays true for ever. *)
+Definition seg_bases (st : state) : list N := map sg_base (st_segs st).
+Definition unused_incl (st st' : state) : Prop :=
+  forall b, In b (seg_bases st') -> seg_has_live b (st_live st') = false ->
+            In b (seg_bases st) /\ seg_has_live b (st_live st) = false.
+Definition no_unused_segment (st : state) : Prop :=
+  forall s, In s (st_segs st) -> seg_has_live (sg_base s) (st_live st) = true.
+
+Lemma unused_incl_refl st : unused_incl st st.
+Proof. intros b Hb Hu. auto. Qed.
+Lemma unused_incl_trans a b c : unused_incl a b -> unused_incl b c -> unused_incl a c.
+Proof. intros H1 H2 x Hx Hu. destruct (H2 x Hx Hu) as [Hx' Hu']. exact (H1 x Hx' Hu'). Qed.
+Lemma unused_incl_same st st' :
+  seg_bases st' = seg_bases st -> (forall b, seg_has_live b (st_live st') = false -> seg_has_live b (st_live st) = false) ->
+  unused_incl st st'.
+Proof. intros Hb Hl b Hin Hu. rewrite Hb in Hin. auto. Qed.
+
+Lemma bases_replace s' l : map sg_base (replace_seg s' l) = map sg_base l.
+Proof.
+  unfold replace_seg. rewrite map_map. apply map_ext_in. intros x _. destruct (sg_base x =? sg_base s') eqn:E; [|reflexivity].
+  apply N.eqb_eq in E. symmetry. exact E.
+Qed.
+Lemma bases_remove b base l : In b (map sg_base (remove_seg base l)) -> In b (map sg_base l) /\ b <> base.
+Proof.
+  intros H. apply in_map_iff in H. destruct H as [x [<- Hx]]. apply in_remove_seg in Hx. destruct Hx as [Hx Hn].
+  split; [apply in_map; exact Hx|exact Hn].
+Qed.
+Lemma has_live_cons_false b p l : seg_has_live b (p :: l) = false -> seg_has_live b l = false.
+Proof. unfold seg_has_live. cbn [existsb]. intros H. apply orb_false_iff in H. tauto. Qed.
+Lemma has_live_remove_false b p l : pg_seg p <> b -> seg_has_live b (remove_page p l) = false -> seg_has_live b l = false.
+Proof.
+  intros Hne H. apply seg_has_live_false_iff. intros q Hq E. pose proof (proj1 (seg_has_live_false_iff _ _) H) as H'.
+  apply (H' q); [|exact E]. apply in_remove_page. split; [exact Hq|]. intros ->. apply Hne. exact E.
+Qed.
+
+Lemma pfa_unused c st base lo n clo cn o st' r o' :
+  page_find_and_allocate c st base lo n clo cn o = Some (st', r, o') -> unused_incl st st'.
+Proof.
+  unfold page_find_and_allocate. destruct (find_seg base (st_segs st)) as [s|]; [|discriminate].
+  match goal with |- context [if ?c then None else _] => destruct c end; [discriminate|].
+  destruct (span_allocate s (st_acc st) lo n o) as [[[s1|] acc1] o1].
+  - intros H. inversion H; subst; clear H. apply unused_incl_same.
+    + unfold seg_bases. cbn [st_segs mk]. apply bases_replace.
+    + cbn [st_live mk]. intros b. apply has_live_cons_false.
+  - destruct (span_free c s acc1 clo cn true o1) as [[s2 acc2] o2]. intros H. inversion H; subst; clear H. apply unused_incl_same.
+    + unfold seg_bases. cbn [st_segs mk]. apply bases_replace.
+    + cbn [st_live mk]. auto.
+Qed.
+
+Lemma segment_alloc_arena_shape c st b0 nslices huge commit o st' r o' :
+  segment_alloc_arena c st b0 nslices huge commit o = Some (st', r, o') ->
+  st_live st' = st_live st /\ match r with Some s => st_segs st' = s :: st_segs st | None => st_segs st' = st_segs st end.
+Proof.
+  unfold segment_alloc_arena.
+  destruct (arena_try_alloc_at (st_arena st) (st_acc st) b0 ((nslices + BLOCK_SLICES - 1) / BLOCK_SLICES) commit o) as [[[[[mc z] a1] acc1] o1]|]; [|discriminate].
+  destruct (os_alloc_commit acc1 (block_slice (st_arena st) b0) nslices huge mc o1) as [[[m acc2]|] o2].
+  - intros H. inversion H; subst; clear H. auto.
+  - destruct (arena_free c a1 acc1 b0 ((nslices + BLOCK_SLICES - 1) / BLOCK_SLICES) false o2) as [[a3 acc3] o3].
+    intros H. inversion H; subst; clear H. auto.
+Qed.
+Lemma segment_alloc_os_shape st addr nslices huge commit unmap_ok o st' r o' :
+  segment_alloc_os st addr nslices huge commit unmap_ok o = Some (st', r, o') ->
+  st_live st' = st_live st /\ match r with Some s => st_segs st' = s :: st_segs st | None => st_segs st' = st_segs st end.
+Proof.
+  unfold segment_alloc_os. match goal with |- context [if ?c then None else _] => destruct c end; [discriminate|].
+  destruct (os_alloc_commit (set_range (st_acc st) addr nslices commit) addr nslices huge commit o) as [[[m acc2]|] o2];
+    intros H; inversion H; subst; clear H; auto.
+Qed.
+
+Lemma free_if_unused_unused c st base u o st' o' :
+  free_if_unused c st base u o = (st', o') ->
+  unused_incl st st' /\ (In base (seg_bases st') -> seg_has_live base (st_live st') = true).
+Proof.
+  unfold free_if_unused. destruct (seg_has_live base (st_live st)) eqn:El.
+  - intros H. inversion H; subst. split; [apply unused_incl_refl|auto].
+  - destruct (find_seg base (st_segs st)) as [s|] eqn:Ef.
+    + destruct (segment_release c (st_arena st) (st_acc st) s u o) as [[a1 acc1] o1]. intros H. inversion H; subst; clear H.
+      split.
+      * intros b Hb Hu. unfold seg_bases in Hb. cbn [st_segs st_live mk] in *. apply bases_remove in Hb. destruct Hb as [Hb _]. auto.
+      * intros Hb. unfold seg_bases in Hb. cbn [st_segs mk] in Hb. apply bases_remove in Hb. destruct Hb as [_ Hb]. congruence.
+    + intros H. inversion H; subst. split; [apply unused_incl_refl|]. intros Hb. exfalso.
+      unfold seg_bases in Hb. apply in_map_iff in Hb. destruct Hb as [x [E Hx]]. exact (find_seg_none _ _ Ef x Hx E).
+Qed.
+
+Lemma new_segment_unused st st1 st3 s1 :
+  st_live st1 = st_live st -> st_segs st1 = s1 :: st_segs st ->
+  unused_incl st1 st3 -> (In (sg_base s1) (seg_bases st3) -> seg_has_live (sg_base s1) (st_live st3) = true) ->
+  unused_incl st st3.
+Proof.
+  intros Hl Hs H13 Hb b Hin Hu. destruct (H13 b Hin Hu) as [Hin1 Hu1]. unfold seg_bases in Hin1. rewrite Hs in Hin1. rewrite Hl in Hu1.
+  cbn [map] in Hin1. destruct Hin1 as [E|Hin1]; [|split; assumption].
+  subst b. rewrite (Hb Hin) in Hu. discriminate.
+Qed.
+
+Lemma segments_page_alloc_unused c n commit ws : forall st o st' r o',
+  segments_page_alloc c st n commit ws o = Some (st', r, o') -> unused_incl st st'.
+Proof.
+  induction ws as [|w rest IH]; intros st o st' r o' H; cbn [segments_page_alloc] in H.
+  - inversion H; subst. apply unused_incl_refl.
+  - destruct w as [base lo clo cn|b0|[addr|] unmap_ok].
+    + destruct (page_find_and_allocate c st base lo n clo cn o) as [[[st1 [p|]] o1]|] eqn:Ep; [| |discriminate].
+      * inversion H; subst. eapply pfa_unused; eauto.
+      * eapply unused_incl_trans; [eapply pfa_unused; eauto|eapply IH; eauto].
+    + destruct (segment_alloc_arena c st b0 MI_SLICES_PER_SEGMENT false commit o) as [[[st1 [s1|]] o1]|] eqn:Es; [| |discriminate].
+      * destruct (segment_alloc_arena_shape _ _ _ _ _ _ _ _ _ _ Es) as [Hl Hs].
+        destruct (segments_page_alloc c st1 n commit rest o1) as [[[st2 r2] o2]|] eqn:Er; [|discriminate].
+        destruct (free_if_unused c st2 (sg_base s1) true o2) as [st3 o3] eqn:Ef. inversion H; subst; clear H.
+        destruct (free_if_unused_unused _ _ _ _ _ _ _ Ef) as [H23 Hb].
+        apply (new_segment_unused st st1 st' s1 Hl Hs); [|exact Hb]. eapply unused_incl_trans; [eapply IH; eauto|exact H23].
+      * inversion H; subst. destruct (segment_alloc_arena_shape _ _ _ _ _ _ _ _ _ _ Es) as [Hl Hs].
+        apply unused_incl_same; [unfold seg_bases; rewrite Hs; reflexivity|rewrite Hl; auto].
+    + destruct (segment_alloc_os st addr MI_SLICES_PER_SEGMENT false commit unmap_ok o) as [[[st1 [s1|]] o1]|] eqn:Es; [| |discriminate].
+      * destruct (segment_alloc_os_shape _ _ _ _ _ _ _ _ _ _ Es) as [Hl Hs].
+        destruct (segments_page_alloc c st1 n commit rest o1) as [[[st2 r2] o2]|] eqn:Er; [|discriminate].
+        destruct (free_if_unused c st2 (sg_base s1) unmap_ok o2) as [st3 o3] eqn:Ef. inversion H; subst; clear H.
+        destruct (free_if_unused_unused _ _ _ _ _ _ _ Ef) as [H23 Hb].
+        apply (new_segment_unused st st1 st' s1 Hl Hs); [|exact Hb]. eapply unused_incl_trans; [eapply IH; eauto|exact H23].
+      * inversion H; subst. destruct (segment_alloc_os_shape _ _ _ _ _ _ _ _ _ _ Es) as [Hl Hs].
+        apply unused_incl_same; [unfold seg_bases; rewrite Hs; reflexivity|rewrite Hl; auto].
+    + inversion H; subst. apply unused_incl_refl.
+Qed.
+
+Lemma huge_finish_unused st st1 s1 n :
+  st_live st1 = st_live st -> st_segs st1 = s1 :: st_segs st ->
+  unused_incl st (mk (st_arena st1) (st_segs st1) ({| pg_seg := sg_base s1; pg_lo := INFO_SLICES; pg_n := n |} :: st_live st1)
+                     (st_raw st1) (st_acc st1)).
+Proof.
+  intros Hl Hs b Hin Hu. unfold seg_bases in Hin. cbn [st_segs st_live mk] in *. rewrite Hs in Hin. cbn [map] in Hin.
+  unfold seg_has_live in Hu. cbn [existsb pg_seg] in Hu. apply orb_false_iff in Hu. destruct Hu as [Hne Hu]. apply N.eqb_neq in Hne.
+  destruct Hin as [E|Hin]; [congruence|]. split; [exact Hin|]. rewrite <- Hl. exact Hu.
+Qed.
+
+Lemma huge_page_alloc_unused c st n w o st' r o' : huge_page_alloc c st n w o = Some (st', r, o') -> unused_incl st st'.
+Proof.
+  unfold huge_page_alloc. destruct (n =? 0); [discriminate|].
+  destruct w as [|[base lo clo cn|b0|[addr|] unmap_ok] rest].
+  - intros H; inversion H; subst; apply unused_incl_refl.
+  - discriminate.
+  - destruct (segment_alloc_arena c st b0 (INFO_SLICES + n) true true o) as [[[st1 [s1|]] o1]|] eqn:Es; [| |discriminate].
+    + destruct (segment_alloc_arena_shape _ _ _ _ _ _ _ _ _ _ Es) as [Hl Hs]. intros H; inversion H; subst; clear H.
+      apply huge_finish_unused; assumption.
+    + destruct (segment_alloc_arena_shape _ _ _ _ _ _ _ _ _ _ Es) as [Hl Hs]. intros H; inversion H; subst; clear H.
+      apply unused_incl_same; [unfold seg_bases; rewrite Hs; reflexivity|rewrite Hl; auto].
+  - destruct (segment_alloc_os st addr (INFO_SLICES + n) true true unmap_ok o) as [[[st1 [s1|]] o1]|] eqn:Es; [| |discriminate].
+    + destruct (segment_alloc_os_shape _ _ _ _ _ _ _ _ _ _ Es) as [Hl Hs]. intros H; inversion H; subst; clear H.
+      apply huge_finish_unused; assumption.
+    + destruct (segment_alloc_os_shape _ _ _ _ _ _ _ _ _ _ Es) as [Hl Hs]. intros H; inversion H; subst; clear H.
+      apply unused_incl_same; [unfold seg_bases; rewrite Hs; reflexivity|rewrite Hl; auto].
+  - intros H; inversion H; subst; apply unused_incl_refl.
+Qed.
+
+Lemma find_page_unused c n huge commit tries : forall st o st' r o',
+  find_page c st n huge commit tries o = Some (st', r, o') -> unused_incl st st'.
+Proof.
+  assert (Hpa : forall st ws o st' r o', page_alloc c st n huge commit ws o = Some (st', r, o') -> unused_incl st st').
+  { intros st ws o st' r o'. unfold page_alloc. destruct huge; [apply huge_page_alloc_unused|apply segments_page_alloc_unused]. }
+  induction tries as [|ws rest IH]; intros st o st' r o' H; cbn [find_page] in H.
+  - inversion H; subst. apply unused_incl_refl.
+  - destruct (page_alloc c st n huge commit ws o) as [[[st1 [p|]] o1]|] eqn:Ep; [| |discriminate].
+    + inversion H; subst. eapply Hpa; eauto.
+    + eapply unused_incl_trans; [eapply Hpa; eauto|eapply IH; eauto].
+Qed.
+
+Lemma seg_try_purge_at_unused c st base o st' o' : seg_try_purge_at c st base o = Some (st', o') -> unused_incl st st'.
+Proof.
+  unfold seg_try_purge_at. destruct (find_seg base (st_segs st)) as [s|]; [|discriminate].
+  destruct (segment_try_purge c s (st_acc st) o) as [[s1 acc1] o1]. intros H; inversion H; subst; clear H.
+  apply unused_incl_same; [unfold seg_bases; cbn [st_segs mk]; apply bases_replace|cbn [st_live mk]; auto].
+Qed.
+Lemma arenas_purge_st_unused c st o st' o' : arenas_purge_st c st o = (st', o') -> unused_incl st st'.
+Proof.
+  unfold arenas_purge_st. destruct (arenas_try_purge c (st_arena st) (st_acc st) o) as [[a1 acc1] o1]. intros H; inversion H; subst; clear H.
+  apply unused_incl_same; [reflexivity|cbn [st_live mk]; auto].
+Qed.
+Lemma collect_segs_unused c order : forall st o st' o', collect_segs c st order o = (st', o') -> unused_incl st st'.
+Proof.
+  induction order as [|b rest IH]; intros st o st' o' H; cbn [collect_segs] in H.
+  - inversion H; subst. apply unused_incl_refl.
+  - destruct (seg_try_purge_at c st b o) as [[st1 o1]|] eqn:Ep.
+    + eapply unused_incl_trans; [eapply seg_try_purge_at_unused; eauto|eapply IH; eauto].
+    + eapply IH; eauto.
+Qed.
+Lemma collect_unused c st order o st' o' : collect c st order o = (st', o') -> unused_incl st st'.
+Proof.
+  unfold collect. destruct (collect_segs c st order o) as [st1 o1] eqn:Ec. intros H.
+  eapply unused_incl_trans; [eapply collect_segs_unused; eauto|eapply arenas_purge_st_unused; eauto].
+Qed.
+
+Lemma malloc_generic_unused c st n huge commit tries order tries2 o st' r o' :
+  malloc_generic c st n huge commit tries order tries2 o = Some (st', r, o') -> unused_incl st st'.
+Proof.
+  unfold malloc_generic. destruct (find_page c st n huge commit tries o) as [[[st1 [p|]] o1]|] eqn:E1; [| |discriminate].
+  - intros H. inversion H; subst. eapply find_page_unused; eauto.
+  - destruct (collect c st1 order o1) as [st2 o2] eqn:Ec.
+    assert (H12 : unused_incl st st2) by (eapply unused_incl_trans; [eapply find_page_unused; eauto|eapply collect_unused; eauto]).
+    destruct (find_page c st2 n huge commit tries2 o2) as [[[st3 [p|]] o3]|] eqn:E3; [| |discriminate];
+      intros H; inversion H; subst; (eapply unused_incl_trans; [exact H12|eapply find_page_unused; eauto]).
+Qed.
+
+Lemma free_page_unused c st p clo cn expired unmap_ok o st' o' :
+  free_page c st p clo cn expired unmap_ok o = Some (st', o') -> unused_incl st st'.
+Proof.
+  unfold free_page. destruct (existsb (page_eqb p) (st_live st)); cbn [negb]; [|discriminate].
+  destruct (find_seg (pg_seg p) (st_segs st)) as [s|] eqn:Ef; [|discriminate].
+  apply find_seg_some in Ef. destruct Ef as [Hs Hb].
+  assert (Hrem : forall a' acc', unused_incl st (mk a' (remove_seg (sg_base s) (st_segs st)) (remove_page p (st_live st)) (st_raw st) acc')).
+  { intros a' acc' b Hin Hu. unfold seg_bases in Hin. cbn [st_segs st_live mk] in *. apply bases_remove in Hin. destruct Hin as [Hin Hne].
+    split; [exact Hin|]. apply (has_live_remove_false b p); [congruence|exact Hu]. }
+  destruct (is_huge s).
+  - destruct (segment_release c (st_arena st) (st_acc st) s unmap_ok o) as [[a1 acc1] o1]. intros H; inversion H; subst; clear H. apply Hrem.
+  - match goal with |- context [if ?c then None else _] => destruct c end; [discriminate|].
+    destruct (span_free c s (st_acc st) clo cn true o) as [[s1 acc1] o1].
+    destruct (if expired then segment_try_purge c s1 acc1 o1 else (s1, acc1, o1)) as [[s2 acc2] o2].
+    destruct (seg_has_live (sg_base s) (remove_page p (st_live st))) eqn:El.
+    + intros H; inversion H; subst; clear H. intros b Hin Hu. unfold seg_bases in Hin. cbn [st_segs st_live mk] in *.
+      rewrite bases_replace in Hin. split; [exact Hin|]. apply (has_live_remove_false b p); [|exact Hu].
+      intros E. rewrite <- E, <- Hb in Hu. congruence.
+    + destruct (segment_release c (st_arena st) acc2 s2 unmap_ok o2) as [[a3 acc3] o3]. intros H; inversion H; subst; clear H. apply Hrem.
+Qed.
+
+Lemma step_unused c st x o st' r o' : step c st x o = Some (st', r, o') -> unused_incl st st'.
+Proof.
+  destruct x as [n huge commit tries order tries2| |p clo cn expired unmap_ok|base| |order|b0 n commit|b0 n allc]; cbn [step].
+  - apply malloc_generic_unused.
+  - intros H. inversion H; subst. apply unused_incl_refl.
+  - destruct (free_page c st p clo cn expired unmap_ok o) as [[st1 o1]|] eqn:Ef; [|discriminate]. intros H. inversion H; subst; clear H.
+    eapply free_page_unused; eauto.
+  - destruct (seg_try_purge_at c st base o) as [[st1 o1]|] eqn:Ep; [|discriminate]. intros H. inversion H; subst; clear H.
+    eapply seg_try_purge_at_unused; eauto.
+  - destruct (arenas_purge_st c st o) as [st1 o1] eqn:Ep. intros H. inversion H; subst; clear H. eapply arenas_purge_st_unused; eauto.
+  - destruct (collect c st order o) as [st1 o1] eqn:Ec. intros H. inversion H; subst; clear H. eapply collect_unused; eauto.
+  - destruct (arena_try_alloc_at (st_arena st) (st_acc st) b0 n commit o) as [[[[[mc z] a1] acc1] o1]|]; [|discriminate].
+    intros H. inversion H; subst; clear H. apply unused_incl_same; [reflexivity|cbn [st_live mk]; auto].
+  - destruct (existsb (fun r0 => raw_eqb r0 b0 n) (st_raw st)); cbn [negb]; [|discriminate].
+    destruct (arena_free c (st_arena st) (st_acc st) b0 n allc o) as [[a1 acc1] o1]. intros H. inversion H; subst; clear H.
+    apply unused_incl_same; [reflexivity|cbn [st_live mk]; auto].
+Qed.
+
+Lemma no_unused_of_incl st st' : unused_incl st st' -> no_unused_segment st -> no_unused_segment st'.
+Proof.
+  intros Hi Hn s Hs. destruct (seg_has_live (sg_base s) (st_live st')) eqn:E; [reflexivity|].
+  destruct (Hi (sg_base s) (in_map _ _ _ Hs) E) as [Hin Hu]. unfold seg_bases in Hin. apply in_map_iff in Hin. destruct Hin as [s0 [E0 Hs0]].
+  specialize (Hn s0 Hs0). rewrite E0 in Hn. congruence.
+Qed.
+
+Lemma no_unused_segment_step c st x o st' r o' :
+  step c st x o = Some (st', r, o') ->
+  unused_incl st st' /\ (no_unused_segment st -> no_unused_segment st').
+Proof. intros H. pose proof (step_unused _ _ _ _ _ _ _ H) as Hi. split; [exact Hi|apply no_unused_of_incl; exact Hi]. Qed.
+
+Lemma no_unused_segment_run c ops : forall st o st' rs o',
+  run c st ops o = Some (st', rs, o') -> no_unused_segment st -> no_unused_segment st'.
+Proof.
+  induction ops as [|x rest IH]; intros st o st' rs o' H Hn; cbn [run] in H.
+  - inversion H; subst. exact Hn.
+  - destruct (step c st x o) as [[[st1 r1] o1]|] eqn:Es; [|discriminate].
+    destruct (run c st1 rest o1) as [[[st2 rs2] o2]|] eqn:Er; [|discriminate]. inversion H; subst; clear H.
+    eapply IH; [exact Er|]. exact (proj2 (no_unused_segment_step _ _ _ _ _ _ _ Es) Hn).
+Qed.
+
+(* from the initial state of an arena (mi_manage_os_memory_ex): after any history every segment has a live page *)
+Lemma no_unused_segment_from_init c start nblocks is_committed is_zero ops o st' rs o' :
+  run c (state_init start nblocks is_committed is_zero) ops o = Some (st', rs, o') -> no_unused_segment st'.
+Proof. intros H. eapply no_unused_segment_run; [exact H|]. intros s Hs. destruct Hs. Qed.
+
+(* the pre-repair mi_segments_page_alloc: the segment obtained from mi_segment_reclaim_or_alloc is kept whatever the
+   retry did (`return mi_segments_page_alloc(...)`) *)
+Fixpoint segments_page_alloc_old (c : cfg) (st : state) (n : N) (commit : bool) (ws : list where_) (o : list bool)
+  : option (state * option page * list bool) :=
+  match ws with
+  | [] => Some (st, None, o)
+  | WSpan base lo clo cn :: rest =>
+    match page_find_and_allocate c st base lo n clo cn o with
+    | None => None
+    | Some (st', Some p, o') => Some (st', Some p, o')
+    | Some (st', None, o') => segments_page_alloc_old c st' n commit rest o'
+    end
+  | WNewArena b0 :: rest =>
+    match segment_alloc_arena c st b0 MI_SLICES_PER_SEGMENT false commit o with
+    | None => None
+    | Some (st', None, o') => Some (st', None, o')
+    | Some (st', Some _, o') => segments_page_alloc_old c st' n commit rest o'
+    end
+  | WNewOs None _ :: _ => Some (st, None, o)
+  | WNewOs (Some addr) unmap_ok :: rest =>
+    match segment_alloc_os st addr MI_SLICES_PER_SEGMENT false commit unmap_ok o with
+    | None => None
+    | Some (st', None, o') => Some (st', None, o')
+    | Some (st', Some _, o') => segments_page_alloc_old c st' n commit rest o'
+    end
+  end.
+
+Definition unused_count (st : state) : N :=
+  N.of_nat (length (filter (fun s => negb (seg_has_live (sg_base s) (st_live st))) (st_segs st))).
+
+(* (1) the first span commit in a fresh segment is refused and no further memory is found: the old code returns NULL and
+       keeps the fresh segment (its arena block stays claimed; a forced collect does not visit it), the repaired code
+       frees it.
+   (2) the witness found on the real code (harness/f_commit.c): the commit of a span of an existing segment is refused,
+       a fresh segment is obtained, the retry finds the restored span of the FIRST segment again and its commit is now
+       granted: the old code keeps the fresh segment without a page for ever, the repaired code frees it. *)
+Definition ex_seg : N := 32768 + 1024.
+Definition ex_state_one_page : state :=
+  match run ex_cfg ex_state [OpAlloc 8 false false [[WNewArena 2; WSpan ex_seg 1 1 511]] [] []] [true; true] with
+  | Some (st, _, _) => st | None => ex_state end.
+Definition ex_ws_retry_elsewhere : list where_ := [WSpan ex_seg 9 9 503; WNewArena 0; WSpan ex_seg 9 9 503].
+Example segments_page_alloc_old_keeps_unused_segment :
+  (match segments_page_alloc_old ex_cfg ex_state 8 false [WNewArena 2; WSpan ex_seg 1 1 511] [true; false] with
+   | Some (st, None, _) => (commit_inv_b st, unused_count st, a_inuse (st_arena st) 2) | _ => (false, 0, false) end) = (true, 1, true) /\
+  (match segments_page_alloc ex_cfg ex_state 8 false [WNewArena 2; WSpan ex_seg 1 1 511] [true; false] with
+   | Some (st, None, _) => (commit_inv_b st, unused_count st, a_inuse (st_arena st) 2) | _ => (false, 1, true) end) = (true, 0, false) /\
+  (match segments_page_alloc_old ex_cfg ex_state_one_page 16 false ex_ws_retry_elsewhere [false; true; true] with
+   | Some (st, Some p, _) => (commit_inv_b st && (pg_seg p =? ex_seg), unused_count st, a_inuse (st_arena st) 0)
+   | _ => (false, 0, false) end) = (true, 1, true) /\
+  (match segments_page_alloc ex_cfg ex_state_one_page 16 false ex_ws_retry_elsewhere [false; true; true] with
+   | Some (st, Some p, _) => (commit_inv_b st && (pg_seg p =? ex_seg), unused_count st, a_inuse (st_arena st) 0)
+   | _ => (false, 1, true) end) = (true, 0, false).
+Proof. repeat split; vm_compute; reflexivity. Qed.
+
+(* the former observation "a fresh segment whose first span commit is refused stays cached with no used page, and a
+   forced collect does not release its arena block" (it concerned C11, "gives back everything") no longer holds: the
+   repaired mi_segments_page_alloc frees that segment before the malloc returns NULL *)
+Example unused_segment_freed_after_refusal :
   match run ex_cfg ex_state [OpAlloc 8 false false [[WNewArena 2; WSpan (32768 + 1024) 1 1 511]] [] []; OpCollect []] [true; false] with
   | Some (st, [RNone; RUnit], _) =>
-    commit_inv_b st && (N.of_nat (length (st_live st)) =? 0) && (N.of_nat (length (st_segs st)) =? 1) && a_inuse (st_arena st) 2
+    commit_inv_b st && (N.of_nat (length (st_live st)) =? 0) && (N.of_nat (length (st_segs st)) =? 0) && negb (a_inuse (st_arena st) 2)
   | _ => false
   end = true.
 Proof. vm_compute. reflexivity. Qed.
